@@ -1,6 +1,8 @@
 // Command gen/c05 prints coq/Gen/C05Facts.v from the /repo working tree (terms, never verdicts):
 // constants of the linked packages (10^12, base fee, EIP-3529 refund quotient), the decorator list
-// of NewAnteHandlerEVM, and AST-level facts about where the prepayment and the refund come from.
+// of NewAnteHandlerEVM, and semantic facts (see norm.go: independent of names, temporaries,
+// spelling of comparisons, if/switch/min form, one-level helpers and message texts) about where
+// the prepayment and the refund come from.
 package main
 
 import (
@@ -8,6 +10,7 @@ import (
 	"go/ast"
 	"go/token"
 	"math/big"
+	"strings"
 
 	gethparams "github.com/ethereum/go-ethereum/params"
 
@@ -16,92 +19,16 @@ import (
 	. "verifharness/genlib"
 )
 
-func calleeName(e ast.Expr) string {
-	switch x := e.(type) {
-	case *ast.CallExpr:
-		return calleeName(x.Fun)
-	case *ast.CompositeLit:
-		return calleeName(x.Type)
-	case *ast.SelectorExpr:
-		return x.Sel.Name
-	case *ast.Ident:
-		return x.Name
-	case *ast.UnaryExpr:
-		return calleeName(x.X)
-	case *ast.StarExpr:
-		return calleeName(x.X)
-	case *ast.ParenExpr:
-		return calleeName(x.X)
+// mulOperands: e is `<x>.Mul(a, b)` (big.Int) or `a * b`; returns the canonical operands.
+func mulOperands(sc *scope, e ast.Expr) (string, string, bool) {
+	e = sc.deref(e)
+	if c, _, ok := sc.methodCall(e, "Mul"); ok && len(c.Args) == 2 {
+		return sc.canon(c.Args[0]), sc.canon(c.Args[1]), true
 	}
-	return "?"
-}
-
-func isCallNamed(e ast.Expr, name string) (*ast.CallExpr, bool) {
-	c, ok := e.(*ast.CallExpr)
-	if !ok {
-		return nil, false
+	if be, ok := e.(*ast.BinaryExpr); ok && be.Op == token.MUL {
+		return sc.canon(be.X), sc.canon(be.Y), true
 	}
-	return c, calleeName(c) == name
-}
-
-func ident(e ast.Expr) string {
-	if id, ok := e.(*ast.Ident); ok {
-		return id.Name
-	}
-	return ""
-}
-
-// mentions: some identifier / selector named n occurs in e.
-func mentions(e ast.Node, n string) bool {
-	found := false
-	ast.Inspect(e, func(x ast.Node) bool {
-		switch y := x.(type) {
-		case *ast.Ident:
-			if y.Name == n {
-				found = true
-			}
-		}
-		return !found
-	})
-	return found
-}
-
-// mentionsDeep: e mentions n directly or through the definitions of the local variables it uses.
-func mentionsDeep(fd *ast.FuncDecl, e ast.Node, n string, depth int) bool {
-	if mentions(e, n) {
-		return true
-	}
-	if depth == 0 {
-		return false
-	}
-	found := false
-	ast.Inspect(e, func(x ast.Node) bool {
-		if id, ok := x.(*ast.Ident); ok && !found {
-			if def := defOf(fd, id.Name); def != nil && def != e {
-				if mentionsDeep(fd, def, n, depth-1) {
-					found = true
-				}
-			}
-		}
-		return !found
-	})
-	return found
-}
-
-// definition of a local variable: the RHS of its (first) := / = in fd.
-func defOf(fd *ast.FuncDecl, name string) ast.Expr {
-	var out ast.Expr
-	ast.Inspect(fd.Body, func(n ast.Node) bool {
-		if as, ok := n.(*ast.AssignStmt); ok && out == nil {
-			for i, l := range as.Lhs {
-				if ident(l) == name && i < len(as.Rhs) {
-					out = as.Rhs[i]
-				}
-			}
-		}
-		return out == nil
-	})
-	return out
+	return "", "", false
 }
 
 func main() {
@@ -130,186 +57,134 @@ func main() {
 		})
 	}
 
-	// 2. VerifyFee: fee = WeiToNative(txData.EffectiveFeeWei(NativeToWei(base)))
+	// 2. VerifyFee: every fee it returns that is not the literal zero is WeiToNative(txData.EffectiveFeeWei(NativeToWei(base)))
 	feeEffective := false
 	if fd := kf["VerifyFee"]; fd != nil && fd.Body != nil {
-		ast.Inspect(fd.Body, func(n ast.Node) bool {
-			if c, ok := isCallNamed(exprOf(n), "WeiToNative"); ok && len(c.Args) == 1 {
-				if in, ok := isCallNamed(c.Args[0], "EffectiveFeeWei"); ok && len(in.Args) == 1 {
-					arg := in.Args[0]
-					if id := ident(arg); id != "" {
-						if def := defOf(fd, id); def != nil {
-							if nc, ok := isCallNamed(def, "NativeToWei"); ok && len(nc.Args) == 1 {
-								feeEffective = true
-							}
-						}
-					}
-				}
+		for _, s := range callsNamed(fd, kf, "WeiToNative") {
+			if len(s.call.Args) != 1 {
+				continue
 			}
-			return true
-		})
+			a := s.sc.canon(s.call.Args[0])
+			// $p0 = txData ; the base fee handed to EffectiveFeeWei is NativeToWei(of the base-fee parameter)
+			if strings.HasPrefix(a, "$p0.EffectiveFeeWei(") && strings.Contains(a, "NativeToWei($p1)") {
+				feeEffective = true
+			}
+		}
 	}
-	// deductFee -> DeductTxCostsFromUserBalance -> DeductFees(bank, ctx, signerAcc, fees)
+	// DeductTxCostsFromUserBalance(ctx, fees, from): DeductFees(bank, ctx, account of `from`, fees)
 	deductFromSigner := false
 	if fd := kf["DeductTxCostsFromUserBalance"]; fd != nil && fd.Body != nil {
-		ast.Inspect(fd.Body, func(n ast.Node) bool {
-			if c, ok := isCallNamed(exprOf(n), "DeductFees"); ok && len(c.Args) == 4 && ident(c.Args[3]) == "fees" {
-				if def := defOf(fd, ident(c.Args[2])); def != nil && mentions(def, "from") {
+		for _, s := range callsNamed(fd, kf, "DeductFees") {
+			if len(s.call.Args) == 4 && s.sc.canon(s.call.Args[3]) == "$p1" {
+				acc := s.sc.canon(s.call.Args[2])
+				if strings.Contains(acc, "GetSignerAcc(") && strings.Contains(acc, "$p2") {
 					deductFromSigner = true
 				}
 			}
-			return true
-		})
+		}
 	}
 
-	// 3. RefundGas: amount = WeiToNative(leftoverGas * weiPerGas), paid by the fee collector to msgFrom
+	// 3. RefundGas(ctx, msgFrom, leftoverGas, weiPerGas): the coins sent are WeiToNative(leftoverGas * weiPerGas),
+	//    from the fee collector module to msgFrom
 	refundFormula, refundFromCollector, refundToSender := false, false, false
-	if fd := kf["RefundGas"]; fd != nil && fd.Body != nil && fd.Type.Params != nil {
-		var pnames []string
-		for _, f := range fd.Type.Params.List {
-			for _, n := range f.Names {
-				pnames = append(pnames, n.Name)
+	if fd := kf["RefundGas"]; fd != nil && fd.Body != nil {
+		for _, s := range callsNamed(fd, kf, "SendCoinsFromModuleToAccount") {
+			if len(s.call.Args) != 4 || s.sc.fd != fd {
+				continue
+			}
+			refundFromCollector = strings.HasSuffix(s.sc.canon(s.call.Args[1]), "FeeCollectorName")
+			refundToSender = strings.Contains(s.sc.canon(s.call.Args[2]), "$p1")
+			// the amount: find the WeiToNative(...) the coins are built from
+			amount := s.sc.canon(s.call.Args[3])
+			for _, w := range callsNamed(fd, kf, "WeiToNative") {
+				if w.sc.fd != fd || len(w.call.Args) != 1 {
+					continue
+				}
+				wn := w.sc.canon(w.call)
+				if !strings.Contains(amount, wn) {
+					continue
+				}
+				a, b, ok := mulOperands(w.sc, w.call.Args[0])
+				if !ok {
+					continue
+				}
+				onlyGas := func(x string) bool { return strings.Contains(x, "$p2") && !strings.Contains(x, "$p3") }
+				onlyPrice := func(x string) bool { return strings.Contains(x, "$p3") && !strings.Contains(x, "$p2") }
+				isPlain := func(x string) bool { // nothing added to the product's operands
+					return !strings.Contains(x, "+") && !strings.Contains(x, "-") && !strings.Contains(x, "Add(") && !strings.Contains(x, "Sub(")
+				}
+				if ((onlyGas(a) && onlyPrice(b)) || (onlyGas(b) && onlyPrice(a))) && isPlain(a) && isPlain(b) {
+					refundFormula = true
+				}
 			}
 		}
-		// (ctx, msgFrom, leftoverGas, weiPerGas)
-		if len(pnames) == 4 {
-			from, gas, price := pnames[1], pnames[2], pnames[3]
-			var amountVar string
-			ast.Inspect(fd.Body, func(n ast.Node) bool {
-				switch x := n.(type) {
-				case *ast.AssignStmt:
-					if len(x.Lhs) == 1 && len(x.Rhs) == 1 {
-						if c, ok := isCallNamed(x.Rhs[0], "WeiToNative"); ok && len(c.Args) == 1 {
-							if def := defOf(fd, ident(c.Args[0])); def != nil {
-								if mc, ok := isCallNamed(def, "Mul"); ok && len(mc.Args) == 2 && mentionsDeep(fd, mc.Args[0], gas, 3) && mentionsDeep(fd, mc.Args[1], price, 3) && !mentionsDeep(fd, mc.Args[0], price, 3) && !mentionsDeep(fd, mc.Args[1], gas, 3) {
-									refundFormula = true
-									amountVar = ident(x.Lhs[0])
-								}
-							}
-						}
-					}
-				case *ast.CallExpr:
-					if calleeName(x) == "SendCoinsFromModuleToAccount" && len(x.Args) == 4 {
-						refundFromCollector = calleeName(x.Args[1]) == "FeeCollectorName"
-						refundToSender = mentions(x.Args[2], from)
-						if def := defOf(fd, ident(x.Args[3])); def == nil || amountVar == "" || !mentions(def, amountVar) {
-							refundFormula = false
-						}
-					}
-				}
-				return true
-			})
-		}
 	}
 
-	// 4. EthereumTx: leftover = msg.Gas() - resp.GasUsed (guarded), price = EffectiveGasPriceWeiPerGas(base fee), refund to msg.From()
+	// 4. EthereumTx: RefundGas(ctx, msg.From(), leftover, price) with price = EffectiveGasPriceWeiPerGas(base fee)
+	//    and leftover = msg.Gas() - resp.GasUsed when that is positive (else 0)
 	leftover, refundPrice, refundCallFrom := false, false, false
 	if fd := kf["EthereumTx"]; fd != nil && fd.Body != nil {
-		var gasVar, priceVar string
-		ast.Inspect(fd.Body, func(n ast.Node) bool {
-			switch x := n.(type) {
-			case *ast.CallExpr:
-				if calleeName(x) == "RefundGas" && len(x.Args) == 4 {
-					gasVar, priceVar = ident(x.Args[2]), ident(x.Args[3])
-					if c, ok := isCallNamed(x.Args[1], "From"); ok && c != nil {
-						refundCallFrom = true
-					}
-				}
+		sc := newScope(fd)
+		for _, s := range callsNamed(fd, kf, "RefundGas") {
+			if len(s.call.Args) != 4 || s.sc.fd != fd {
+				continue
 			}
-			return true
-		})
-		if priceVar != "" {
-			if def := defOf(fd, priceVar); def != nil {
-				if c, ok := isCallNamed(def, "EffectiveGasPriceWeiPerGas"); ok && len(c.Args) == 1 && mentions(c.Args[0], "BaseFeeWei") {
-					refundPrice = true
-				}
+			refundCallFrom = strings.HasSuffix(sc.canon(s.call.Args[1]), ".From()")
+			pr := sc.canon(s.call.Args[3])
+			refundPrice = strings.Contains(pr, ".EffectiveGasPriceWeiPerGas(") && strings.Contains(pr, "BaseFeeWei")
+			gasArg := s.call.Args[2]
+			isDiff := func(e ast.Expr) bool { // X.Gas() - Y.GasUsed
+				be, ok := sc.deref(e).(*ast.BinaryExpr)
+				return ok && be.Op == token.SUB && strings.HasSuffix(sc.canon(be.X), ".Gas()") && strings.HasSuffix(sc.canon(be.Y), ".GasUsed")
 			}
-		}
-		if gasVar != "" {
-			ast.Inspect(fd.Body, func(n ast.Node) bool {
-				ifs, ok := n.(*ast.IfStmt)
-				if !ok {
-					return true
+			gasVar := ""
+			if id, ok := gasArg.(*ast.Ident); ok {
+				gasVar = id.Name
+			}
+			for _, g := range guardsOf(fd.Body) {
+				c := sc.guardCmp(g)
+				// GasUsed < Gas()
+				if !c.ok || c.op != token.LSS || !strings.HasSuffix(c.lhs, ".GasUsed") || !strings.HasSuffix(c.rhs, ".Gas()") {
+					continue
 				}
-				be, ok := ifs.Cond.(*ast.BinaryExpr)
-				if !ok || be.Op != token.GTR {
-					return true
-				}
-				if _, ok := isCallNamed(be.X, "Gas"); !ok {
-					return true
-				}
-				if s, ok := be.Y.(*ast.SelectorExpr); !ok || s.Sel.Name != "GasUsed" {
-					return true
-				}
-				for _, st := range ifs.Body.List {
-					if as, ok := st.(*ast.AssignStmt); ok && len(as.Lhs) == 1 && ident(as.Lhs[0]) == gasVar && len(as.Rhs) == 1 {
-						if sub, ok := as.Rhs[0].(*ast.BinaryExpr); ok && sub.Op == token.SUB {
-							_, a := isCallNamed(sub.X, "Gas")
-							s, b := sub.Y.(*ast.SelectorExpr)
-							if a && b && s.Sel.Name == "GasUsed" {
-								leftover = true
-							}
+				for _, st := range g.body {
+					if as, ok := st.(*ast.AssignStmt); ok && len(as.Lhs) == 1 && len(as.Rhs) == 1 {
+						if id, ok := as.Lhs[0].(*ast.Ident); ok && id.Name == gasVar && gasVar != "" && isDiff(as.Rhs[0]) {
+							leftover = true
 						}
 					}
 				}
-				return true
-			})
+			}
 		}
 	}
 
-	// 5. refund cap in ApplyEvmMsg / gasToRefund
-	capCalled, capQuot := false, false
+	// 5. refund cap: ApplyEvmMsg hands the StateDB refund counter to a function that returns
+	//    min(counter, gasUsed / RefundQuotientEIP3529)
+	capApplied := false
 	if fd := kf["ApplyEvmMsg"]; fd != nil && fd.Body != nil {
 		ast.Inspect(fd.Body, func(n ast.Node) bool {
-			if c, ok := isCallNamed(exprOf(n), "gasToRefund"); ok && len(c.Args) == 2 {
-				if _, ok := isCallNamed(c.Args[0], "GetRefund"); ok && ident(c.Args[1]) == "gasUsed" {
-					capCalled = true
-				}
+			c, ok := n.(*ast.CallExpr)
+			if !ok || len(c.Args) != 2 {
+				return true
+			}
+			h, ok := kf[calleeName(c)]
+			if !ok || h.Type.Params == nil {
+				return true
+			}
+			sc := newScope(fd)
+			if !strings.HasSuffix(sc.canon(c.Args[0]), ".GetRefund()") {
+				return true
+			}
+			a, b, ok := returnsMin(h)
+			if !ok {
+				return true
+			}
+			isQuot := func(x string) bool { return strings.HasPrefix(x, "($p1/") && strings.HasSuffix(x, "RefundQuotientEIP3529)") }
+			if (a == "$p0" && isQuot(b)) || (b == "$p0" && isQuot(a)) {
+				capApplied = true
 			}
 			return true
 		})
-	}
-	if fd := kf["gasToRefund"]; fd != nil && fd.Body != nil && fd.Type.Params != nil && len(fd.Type.Params.List) > 0 && len(fd.Type.Params.List[0].Names) > 0 {
-		avail := fd.Type.Params.List[0].Names[0].Name
-		quotVar := ""
-		ast.Inspect(fd.Body, func(n ast.Node) bool {
-			if as, ok := n.(*ast.AssignStmt); ok && len(as.Lhs) == 1 && len(as.Rhs) == 1 {
-				if be, ok := as.Rhs[0].(*ast.BinaryExpr); ok && be.Op == token.QUO && calleeName(be.Y) == "RefundQuotientEIP3529" {
-					quotVar = ident(as.Lhs[0])
-				}
-			}
-			return true
-		})
-		// min(quotVar, avail): `if quotVar > avail { return avail }; return quotVar` (or the mirrored form)
-		guarded, plain := "", ""
-		for _, st := range fd.Body.List {
-			switch x := st.(type) {
-			case *ast.IfStmt:
-				be, ok := x.Cond.(*ast.BinaryExpr)
-				if !ok || len(x.Body.List) == 0 {
-					continue
-				}
-				ret, ok := x.Body.List[len(x.Body.List)-1].(*ast.ReturnStmt)
-				if !ok || len(ret.Results) != 1 {
-					continue
-				}
-				big_, small := "", ""
-				switch be.Op {
-				case token.GTR, token.GEQ:
-					big_, small = ident(be.X), ident(be.Y)
-				case token.LSS, token.LEQ:
-					big_, small = ident(be.Y), ident(be.X)
-				}
-				if big_ != "" && ident(ret.Results[0]) == small {
-					guarded = small + "<" + big_
-				}
-			case *ast.ReturnStmt:
-				if len(x.Results) == 1 {
-					plain = ident(x.Results[0])
-				}
-			}
-		}
-		capQuot = quotVar != "" && ((guarded == avail+"<"+quotVar && plain == quotVar) || (guarded == quotVar+"<"+avail && plain == avail))
 	}
 
 	one := big.NewInt(1)
@@ -335,13 +210,5 @@ func main() {
 	fmt.Printf("  k_refund_to_sender := %s;\n", CoqBool(refundToSender && refundCallFrom))
 	fmt.Printf("  k_leftover_is_limit_minus_used := %s;\n", CoqBool(leftover))
 	fmt.Printf("  k_refund_price_is_effective_price := %s;\n", CoqBool(refundPrice))
-	fmt.Printf("  k_refund_cap_applied := %s |}.\n", CoqBool(capCalled && capQuot))
-}
-
-// exprOf: the node itself when it is an expression.
-func exprOf(n ast.Node) ast.Expr {
-	if e, ok := n.(ast.Expr); ok {
-		return e
-	}
-	return nil
+	fmt.Printf("  k_refund_cap_applied := %s |}.\n", CoqBool(capApplied))
 }
